@@ -1802,6 +1802,10 @@ fn inject_define_component_option(call: &mut CallExpr, name: &'static str, value
             ),
         ],
     );
+    if call.args.is_empty() {
+        // no component to describe: the options would become the first argument
+        return;
+    }
     let options = call.args.get_mut(1);
     if options
         .as_ref()
